@@ -120,6 +120,46 @@ def main():
 
 
 NEEDS = {
+    'C01-3': 'POST /reshaper giving a provider "inventories": {} while the allocations section still places amounts on it',
+    'C01-4': 'inventory with reserved > 0 and allocation_ratio > 1 and an allocation landing between total*ratio-reserved and (total-reserved)*ratio',
+    'C02-3': 'unsuffixed group asking >= 3 classes where a prefix (in query order) has no common tree and a later class fits somewhere',
+    'C02-4': 'inventory with step_size > 1 whose min_unit is not a multiple of it; amount = min_unit + k*step_size',
+    'C03-3': 'microversion 1.25-1.28, nested tree, >= 2 groups satisfied by different providers of one tree',
+    'C03-4': 'root_required (>= 1.35) plus a suffixed group satisfied by a non-root provider',
+    'C04-3': 'PUT aggregates (>= 1.19) passes the early generation check, another write on the provider commits, then its two transactions run',
+    'C04-4': 'PUT inventories / PUT inventory shrinking a used class below its usage (answered 409 after the write committed)',
+    'C05-3': 'PUT inventories with "inventories": {} and generation G while another writer commits between the check and the write',
+    'C05-4': 'PUT traits carrying a generation HIGHER than the stored one (future value, or cached before delete and re-create)',
+    'C06-3': 'two writers of a new consumer, both null; the loser preempted between its lookup and Consumer.create()',
+    'C06-4': 'creator (null) preempted after ensure_consumer; other writer with explicit generation 0 succeeds; creator then fails and cleans up',
+    'C07-3': 'existing consumer, right generation, changed project/user, and a failure inside the write transaction (409 over capacity after a racing claim)',
+    'C07-4': 'two identical PUT aggregates (>= 1.19) with the same generation, loser past the early check before the winner commits',
+    'C08-3': 'rejected PUT for a new consumer preempted after ensure_consumer by a complete PUT (1.27, no generation) for the same consumer',
+    'C08-4': 'P1 in aggregates {A, B}, P2 in {A}; PUT P1 aggregates [] removes both at once',
+    'C09-3': 'microversion >= 1.37: re-parent a non-root provider into another tree (or un-parent it) while siblings stay in the old tree',
+    'C09-4': 'DELETE P preempted between its child check and its write transaction by POST child / PUT first-parent under P',
+    'C10-3': 'POST inventory preempted after reading the provider by another write on it (server-side retry answers with the stale generation)',
+    'C10-4': 'PUT allocations below 1.28 repeating exactly what the consumer already holds (same project/user)',
+    'C11-3': 'two providers share an aggregate and one of them drops it via PUT aggregates',
+    'C11-4': 'rewrite of a consumer that already holds allocations where old + new exceed capacity although new alone fits',
+    'C12-3': 'POST /allocations for an existing consumer naming another project/user/type, rejected after the consumer stage (e.g. over capacity)',
+    'C12-4': 'PUT allocations for a not-yet-existing consumer naming a well-formed but unregistered resource class',
+    'C13-3': 'microversion 1.39: required=in:A,B partly covered by required=!A, provider holding B but not A',
+    'C13-4': 'resources filter on an inventory with reserved > 0 and ratio != 1, amount between the two capacity formulas',
+    'C14-3': 'PUT allocations with empty allocations at microversion 1.12-1.27',
+    'C14-4': 'consumer written below 1.38 (type NULL), GET /allocations/{c} at >= 1.38',
+    'C15-3': 'microversion 1.2-1.6: PUT /resource_classes/CUSTOM_A {"name": "CUSTOM_B"} with CUSTOM_B existing',
+    'C15-4': 'otherwise valid POST /reshaper placing a class on a provider that has no inventory of it before or after',
+    'C16-3': 'PUT /traits/<existing custom trait> by a caller without the admin/service role',
+    'C16-4': 'PUT provider aggregates at microversion 1.1-1.18 by an unauthorised caller',
+    'C17-3': 'PUT aggregates >= 1.19 naming a never-seen aggregate + duplicate-key error on INSERT INTO placement_aggregates (retry path)',
+    'C17-4': 'start-up on an unsynchronised database + deadlock with server-side rollback at the resource-class statements',
+    'C18-3': 'POST /reshaper with empty allocations and >= 2 providers; process dies between the per-provider commits',
+    'C18-4': 'DELETE /allocations/{c} of a consumer holding allocations on >= 2 providers; process dies between per-provider commits',
+    'C19-3': 'PUT /resource_classes/{name} >= 1.7 with a syntactically valid CUSTOM_ name longer than 255 characters',
+    'C19-4': 'database fault during the resource-class sync of one start-up, then another start-up in the same process',
+    'C20-3': 'microversion 1.25-1.33, >= 2 interchangeable granular groups (twins), limit slice containing both twins',
+    'C20-4': 'randomisation off, >= 1.35, exactly one request group on the single-provider path, root_required filtering some providers, limit',
     'C01-1': 'one POST /allocations whose consumers land on the same (provider, class) and only jointly exceed capacity',
     'C01-2': 'POST /reshaper that shrinks an existing inventory while re-placing allocations on it',
     'C03-1': 'sharing provider for a suffixed group + member_of on the unsuffixed group that the sharing provider is not in',
